@@ -3,7 +3,8 @@
 (a) ROUND TRIP.  Every one of the 18 capability kinds (9 file kinds + 9 DIR2 wrappers) is
     built with the real constructors from every combination of the field alphabets
     (16-byte keys / 32-byte hashes in {00.., ff.., counting, seed-derived}; k, N, size in
-    {0,1,3,10,255,256,2^32-1,2^32,2^64,10^30}; LIT data of length 0..9 and 55), serialised,
+    {0,1,3,10,255,256,2^32-1,2^32,2^64,10^30}; LIT data of length 0..9 and 55; and every field of
+    every kind with each of the 32 possible first base32 characters), serialised,
     compared with an independent serialiser written from docs/specifications/uri.rst, parsed
     back through uri.from_string (bytes and str) and <Class>.init_from_string, and must come
     back as the same class, ==, with the same fields and the same string.
@@ -141,6 +142,23 @@ def roundtrip_cases(tier, seed):
         else:
             for (key, h) in itertools.product(keys, hashes):
                 cases.append((name, (key, h)))
+    # every FIRST and every LAST base32 character of every field: the first 5 bits of each field take all 32
+    # values (the field then starts with each letter of the alphabet, also the ones occurring in the kind
+    # prefixes), the last byte takes the values that give every canonical tail character
+    for name in L.KIND_NAMES:
+        lay = L.KINDS[name].layout
+        for v in range(32):
+            key = bytes([v << 3]) + keys[2][1:-1] + bytes([(v * 8 + 1) & 0xff])
+            h = bytes([v << 3 | 1]) + hashes[2][1:-1] + bytes([(v * 8 + 3) & 0xff])
+            if lay == "lit":
+                cases.append((name, (bytes([v << 3]) + b"lit",)))
+                cases.append((name, (bytes([v << 3]),)))
+            elif lay == "chk":
+                cases.append((name, (key, hashes[2], 3, 10, 1000)))
+                cases.append((name, (keys[2], h, 3, 10, 1000)))
+            else:
+                cases.append((name, (key, hashes[2])))
+                cases.append((name, (keys[2], h)))
     return cases
 
 
